@@ -77,7 +77,8 @@ Print Assumptions C04_gf_lib_ok.
    Statements in Spec/ApiGateSpec.v, proofs in Proofs/ApiGateProofs.v and Proofs/ApiGateProofsB.v.  Every public call except SetMode is a
    run of the send-entitlement machine (SetMode re-addresses the devices without a claim by design and is excluded - exactly it - from
    that statement; C04_api_set_mode_not_a_run shows the exclusion is necessary); listen-only nodes, nodes that are not open and the
-   settle delay cover all calls, SetMode included.  C04_api_not_open_noclock_refuted: the clock hypothesis of the not-open statement is
+   settle delay cover all calls, SetMode included.  ExtendTransmitMessages / ExtendReceiveMessages / SetHandleOnlyKnownMessages /
+   SetProductInformation are silent changes and are covered by every statement.  C04_api_not_open_noclock_refuted: the clock hypothesis of the not-open statement is
    needed for SendHeartbeat(force) in the last 200 ms before the 64-bit clock wraps (model boundary, cf. GateSpec.clock_ok). *)
 From N2kV Require Model.ApiDefs Spec.ApiGateSpec Proofs.ApiGateProofs Proofs.ApiGateProofsB.
 Theorem C04_api_produced_frames_entitled : ApiGateSpec.api_produced_frames_entitled_stmt.  Proof. exact ApiGateProofs.api_produced_frames_entitled. Qed.
@@ -106,23 +107,28 @@ Import ApiDefs.
    SendHeartbeat(1) the heartbeat from 31; SetDeviceInformationInstances is silent but arms the delayed claim, which the next
    ParseMessages sends (0x18eeff1e); Restart() sends both claims and opens both windows.  Inside the windows
    SendProductInformation(0) and SendTxPGNList(.., 1) produce nothing, SendIsoAddressClaim still does; 251 ms later the senders work
-   again; the setters and the delayed claim are silent. *)
+   again; the setters (PGN lists node-wide and per device, device information, SetHandleOnlyKnownMessages, SetProductInformation) and
+   the delayed claim are silent. *)
 Definition api_ex_ops : list xop :=
   [ XApi (ASendProd 0); XApi (ASendHeartbeatDev 1); XApi (ASetInstances 0 1 2 3); XBase (RBase (OTick 3)); XBase RPoll;
     XApi ARestart; XApi (ASendProd 0); XApi (ASendClaim 255 0 0); XApi (ASendTxList 255 1 false); XBase (RBase (OTick 251)); XApi (ASendProd 0); XApi (ASendConf 1);
-    XApi (ASendHeartbeatAll true); XApi (ASetPgnList 0 [130000]); XApi (ASetDeviceInformation 0 5 255 255 65535 255); XApi (ASendClaim 255 (-1) 10) ].
+    XApi (ASendHeartbeatAll true); XApi (ASetPgnList 0 [130000]); XApi (ASetDeviceInformation 0 5 255 255 65535 255); XApi (ASendClaim 255 (-1) 10);
+    XApi (ASetTxList 0 [130000; 0]); XApi (ASetRxList 1 [127250; 0]); XApi (ASetOnlyKnown true); XApi (ASetProductInformation [49] 666 [65] [66] [67] 2 65535 255) ].
 Example C04_api_nonvacuous_open :
   to_can_id 6 126996 30 255 = 435164190 /\
   evs_summary (snd (xrun gf_none (ex_node 1) api_ex_ops))
   = [ [inl 435164190]; [inl 502272287]; []; []; [inl 418316062]; [inl 418316062; inl 418316063]; []; [inl 418316062]; []; [];
-      [inl 435164190]; [inl 435164703]; [inl 502272286; inl 502272287]; []; []; [] ] /\
+      [inl 435164190]; [inl 435164703]; [inl 502272286; inl 502272287]; []; []; []; []; []; []; [] ] /\
+  (* the four run-time setters at the end did what they say *)
+  (let r := fst (xrun gf_none (ex_node 1) api_ex_ops) in
+   d_tx (get_dev (rn r) 0) = [130000; 0] /\ x_rx (get_devx r 1) = [127250; 0] /\ c_only_known (r_cfg r) = true /\ length (c_prodinfo (r_cfg r)) = 134%nat) /\
   (* the state in which the 7th operation, SendProductInformation(0), produces nothing: open, both claims pending *)
   (let r := fst (xrun gf_none (ex_node 1) (firstn 6 api_ex_ops)) in
    n_open (rn r) = 3 /\ claim_pending (rn r) 0 = true /\ claim_pending (rn r) 1 = true /\ snd (api_step r (ASendProd 0)) = []) /\
   (* the hypotheses of the step statement hold of the start state *)
   clock_ok (rn (ex_node 1)) /\ Forall (fun o => ApiGateSpec.x_is_set_mode o = false) api_ex_ops.
 Proof.
-  split; [vm_compute; reflexivity|]. split; [vm_compute; reflexivity|]. split; [vm_compute; repeat split|].
+  split; [vm_compute; reflexivity|]. split; [vm_compute; reflexivity|]. split; [vm_compute; repeat split|]. split; [vm_compute; repeat split|].
   split; [intros _ _; vm_compute; split; [discriminate|reflexivity]|]. repeat constructor.
 Qed.
 Print Assumptions C04_api_nonvacuous_open.
@@ -148,7 +154,7 @@ Proof.
 Qed.
 Print Assumptions C04_api_nonvacuous_cold.
 
-(* a listen-only node: the same sixteen operations as on the open node above reach the driver not at all *)
+(* a listen-only node: the same twenty operations as on the open node above reach the driver not at all *)
 Example C04_api_nonvacuous_listen_only :
   forallb (forallb (fun e => negb (is_tx e))) (snd (xrun gf_none (ex_node 0) api_ex_ops)) = true /\
   n_mode (rn (ex_node 0)) = 0 /\ queue_empty (n_q (rn (ex_node 0))).
